@@ -17,7 +17,18 @@
 //!   open-succeeded-while-holder-alive, open-refused-with-no-holder,
 //!   refused-open-changed-data-file, refused-open-changed-regions-file,
 //!   reopen-lost-flushed-content, open-failed-with-other-error, kernel-flock-rule-violated,
-//!   worker-panicked.
+//!   worker-panicked, racing-drops-release-lock-while-bg-task-alive (the `race <n>` probe).
+//!
+//! DETERMINISM.  No O line depends on time.  Every step of a history is a synchronous hand-shake:
+//! the coordinator sends one command and blocks for the worker's one reply (channel / pipe); a
+//! Reader lives in a thread that acknowledges its creation; a background closure blocks on a channel
+//! until it is told to return; "the drop is blocked in sync_bg_tasks" is established by the
+//! library's own verification tap (`Lock{class:"join"}` emitted inside sync_bg_tasks), matched to
+//! the dropping thread by a ticket — not by sleeping or by looking at thread states.  The timeouts
+//! that remain (HANDSHAKE_TIMEOUT, REPLY_TIMEOUT, a worker that cannot be spawned) only ever abort
+//! the CASE: it is printed as `M <id> inconclusive` with neither I nor O line, so neither the
+//! oracle nor the model comparison sees it.  The race probe is probabilistic by nature; its O line is
+//! the constant `race done` and it speaks only through its V line.
 use crate::rng::Rng;
 use rawdb::{Database, Region};
 use std::collections::BTreeMap;
@@ -66,35 +77,50 @@ fn read_token(region: &Region) -> String {
 // ------------------------------------------------------------------------------------------
 struct ReaderSlot {
     drop_tx: mpsc::Sender<()>,
-    dropping_rx: mpsc::Receiver<i32>,
+    dropping_rx: mpsc::Receiver<u64>,
     th: JoinHandle<()>,
 }
 
-fn gettid() -> i32 {
-    unsafe { libc::syscall(libc::SYS_gettid) as i32 }
+/// Deterministic hand-shake for "this drop is now blocked in sync_bg_tasks": rawdb's verification
+/// tap reports `Lock { class: "join" }` from inside Database::sync_bg_tasks right before each
+/// `handle.join()` (lib.rs, cfg(anydb_verif)).  A thread that is about to drop what the worker
+/// believes is the last strong reference takes a unique ticket; the sink publishes the ticket of the
+/// thread that reaches the join; the worker waits for that ticket.  Seeing it proves the dropper has
+/// passed `strong_count == 1` and sits in the join — no sleeping, no /proc polling, no guess.
+/// The only timeout left (HANDSHAKE_TIMEOUT) aborts the CASE as inconclusive.
+static JOIN_TICKETS: std::sync::Mutex<Vec<u64>> = std::sync::Mutex::new(Vec::new());
+static JOIN_CV: std::sync::Condvar = std::sync::Condvar::new();
+static NEXT_TICKET: std::sync::atomic::AtomicU64 = std::sync::atomic::AtomicU64::new(1);
+thread_local! { static MY_TICKET: std::cell::Cell<u64> = const { std::cell::Cell::new(0) }; }
+const HANDSHAKE_TIMEOUT: Duration = Duration::from_secs(120);
+const REPLY_TIMEOUT: Duration = Duration::from_secs(300);
+
+fn install_tap() {
+    rawdb::verif_tap::set_sink(Some(Box::new(|e| {
+        if let rawdb::verif_tap::Event::Lock { class, .. } = e
+            && *class == "join"
+        {
+            let t = MY_TICKET.with(|c| c.get());
+            if t != 0 {
+                JOIN_TICKETS.lock().unwrap().push(t);
+                JOIN_CV.notify_all();
+            }
+        }
+    })));
 }
 
-/// Wait until thread `tid` of this process sleeps in the kernel (it announced that its next action
-/// is the drop, so sleeping = blocked in sync_bg_tasks' join) or is gone.
-fn wait_blocked(tid: i32) {
-    let mut seen = 0;
-    for _ in 0..50_000 {
-        match fs::read_to_string(format!("/proc/self/task/{tid}/stat")) {
-            Ok(s) => {
-                let st = s.rfind(") ").map(|p| s.as_bytes()[p + 2]).unwrap_or(b'?');
-                if st == b'S' {
-                    seen += 1;
-                    if seen >= 3 {
-                        return;
-                    }
-                } else {
-                    seen = 0;
-                }
-            }
-            Err(_) => return,
-        }
-        thread::sleep(Duration::from_micros(100));
-    }
+fn take_ticket() -> u64 {
+    let t = NEXT_TICKET.fetch_add(1, Ordering::Relaxed);
+    MY_TICKET.with(|c| c.set(t));
+    t
+}
+
+/// true = the thread holding `ticket` has entered the join of sync_bg_tasks
+fn wait_join_entered(ticket: u64) -> bool {
+    let g = JOIN_TICKETS.lock().unwrap();
+    let (mut g, res) = JOIN_CV.wait_timeout_while(g, HANDSHAKE_TIMEOUT, |v| !v.contains(&ticket)).unwrap();
+    g.retain(|x| *x != ticket);
+    !res.timed_out()
 }
 
 impl ReaderSlot {
@@ -103,24 +129,25 @@ impl ReaderSlot {
     fn new(region: &Region) -> Self {
         let (drop_tx, drop_rx) = mpsc::channel::<()>();
         let (made_tx, made_rx) = mpsc::channel::<()>();
-        let (dropping_tx, dropping_rx) = mpsc::channel::<i32>();
+        let (dropping_tx, dropping_rx) = mpsc::channel::<u64>();
         let region = region.clone();
         let th = thread::spawn(move || {
             let rd = region.create_reader();
             drop(region);
             let _ = made_tx.send(());
             let _ = drop_rx.recv();
-            let _ = dropping_tx.send(gettid());
+            let _ = dropping_tx.send(take_ticket());
             drop(rd);
         });
         let _ = made_rx.recv();
         ReaderSlot { drop_tx, dropping_rx, th }
     }
-    /// the drop is expected to block in sync_bg_tasks: start it and wait until it does
-    fn start_drop(&self) {
+    /// the drop is expected to block in sync_bg_tasks: start it and wait (hand-shake) until it does
+    fn start_drop(&self) -> bool {
         let _ = self.drop_tx.send(());
-        if let Ok(tid) = self.dropping_rx.recv() {
-            wait_blocked(tid);
+        match self.dropping_rx.recv() {
+            Ok(ticket) => wait_join_entered(ticket),
+            Err(_) => false,
         }
     }
     fn finish(self) {
@@ -139,7 +166,7 @@ struct InstW {
     handles: Vec<Database>,
     readers: Vec<ReaderSlot>,
     region: Option<Region>,
-    bg: Vec<Arc<AtomicBool>>, // background closures that have not been told to return yet
+    bg: Vec<mpsc::Sender<()>>, // background closures that have not been told to return yet
     joiner: Option<Joiner>,   // a dropper blocked in Drop → sync_bg_tasks (still a strong reference)
 }
 
@@ -211,15 +238,15 @@ impl Worker {
                 let h = i.handles.pop().unwrap();
                 if last && !i.bg.is_empty() {
                     // Drop will block in sync_bg_tasks until the background closures return
-                    let (tid_tx, tid_rx) = mpsc::channel::<i32>();
+                    let (tk_tx, tk_rx) = mpsc::channel::<u64>();
                     i.joiner = Some(Joiner::Handle(thread::spawn(move || {
-                        let _ = tid_tx.send(gettid());
+                        let _ = tk_tx.send(take_ticket());
                         drop(h)
                     })));
-                    if let Ok(tid) = tid_rx.recv() {
-                        wait_blocked(tid);
+                    match tk_rx.recv() {
+                        Ok(ticket) if wait_join_entered(ticket) => "joining".into(),
+                        _ => "inconclusive".into(),
                     }
-                    "joining".into()
                 } else {
                     drop(h);
                     self.settle(k)
@@ -241,9 +268,9 @@ impl Worker {
                 let last = i.strong() == 1;
                 let slot = i.readers.pop().unwrap();
                 if last && !i.bg.is_empty() {
-                    slot.start_drop();
+                    let entered = slot.start_drop();
                     i.joiner = Some(Joiner::Reader(slot));
-                    "joining".into()
+                    if entered { "joining".into() } else { "inconclusive".into() }
                 } else {
                     slot.finish();
                     self.settle(k)
@@ -251,16 +278,14 @@ impl Worker {
             }
             "bg" => match self.insts.get_mut(&k) {
                 Some(i) if !i.handles.is_empty() && i.joiner.is_none() => {
-                    let flag = Arc::new(AtomicBool::new(false));
-                    let f2 = flag.clone();
-                    // the closure never touches the uncounted handle it is given
+                    let (tx, rx) = mpsc::channel::<()>();
+                    // the closure never touches the uncounted handle it is given; it blocks
+                    // until it is told to return (or the sender goes away)
                     i.handles[0].run_bg(move |_db| {
-                        while !f2.load(Ordering::Acquire) {
-                            thread::sleep(Duration::from_micros(200));
-                        }
+                        let _ = rx.recv();
                         Ok(())
                     });
-                    i.bg.push(flag);
+                    i.bg.push(tx);
                     "ok".into()
                 }
                 _ => "skip".into(),
@@ -270,8 +295,8 @@ impl Worker {
                 if i.bg.is_empty() {
                     return "skip".into();
                 }
-                let flag = i.bg.remove(0);
-                flag.store(true, Ordering::Release);
+                let tx = i.bg.remove(0);
+                let _ = tx.send(());
                 if i.bg.is_empty() && i.joiner.is_some() {
                     match i.joiner.take().unwrap() {
                         Joiner::Handle(th) => {
@@ -309,8 +334,8 @@ impl Worker {
                 let ks: Vec<u64> = self.insts.keys().copied().collect();
                 for k in ks {
                     let mut i = self.insts.remove(&k).unwrap();
-                    for f in i.bg.drain(..) {
-                        f.store(true, Ordering::Release);
+                    for tx in i.bg.drain(..) {
+                        let _ = tx.send(());
                     }
                     match i.joiner.take() {
                         Some(Joiner::Handle(th)) => {
@@ -349,12 +374,9 @@ fn race_child(dir: &str, iters: u64) -> i32 {
     let (mut hits, mut reopened) = (0u64, 0u64);
     for _ in 0..iters {
         let Ok(db) = Database::open(dir) else { continue };
-        let flag = Arc::new(AtomicBool::new(false));
-        let f2 = flag.clone();
+        let (fin_tx, fin_rx) = mpsc::channel::<()>();
         db.run_bg(move |_db| {
-            while !f2.load(Ordering::Acquire) {
-                thread::sleep(Duration::from_micros(50));
-            }
+            let _ = fin_rx.recv();
             Ok(())
         });
         let a = db.clone();
@@ -392,7 +414,7 @@ fn race_child(dir: &str, iters: u64) -> i32 {
                 drop(db2);
             }
         }
-        flag.store(true, Ordering::Release);
+        let _ = fin_tx.send(());
         let _ = t1.join();
         let _ = t2.join();
         thread::sleep(Duration::from_micros(200));
@@ -441,18 +463,18 @@ impl Link {
         });
         Link::Thread { tx, rx, th: Some(th) }
     }
-    fn process(dir: &Path) -> Link {
-        let exe = std::env::current_exe().expect("current_exe");
+    fn process(dir: &Path) -> Option<Link> {
+        let exe = std::env::current_exe().ok()?;
         let mut child = Command::new(exe)
             .args(["openlock", "--child", dir.to_str().unwrap()])
             .stdin(Stdio::piped())
             .stdout(Stdio::piped())
             .stderr(Stdio::null())
             .spawn()
-            .expect("spawn child harness");
-        let stdin = child.stdin.take().unwrap();
-        let stdout = BufReader::new(child.stdout.take().unwrap());
-        Link::Proc { child, stdin, stdout }
+            .ok()?;
+        let stdin = child.stdin.take()?;
+        let stdout = BufReader::new(child.stdout.take()?);
+        Some(Link::Proc { child, stdin, stdout })
     }
     fn call(&mut self, cmd: &str) -> String {
         match self {
@@ -460,11 +482,25 @@ impl Link {
                 if tx.send(cmd.to_string()).is_err() {
                     return "dead".into();
                 }
-                rx.recv().unwrap_or_else(|_| "dead".into())
+                rx.recv_timeout(REPLY_TIMEOUT).unwrap_or_else(|_| "dead".into())
             }
             Link::Proc { stdin, stdout, .. } => {
                 if writeln!(stdin, "{cmd}").is_err() || stdin.flush().is_err() {
                     return "dead".into();
+                }
+                // the only wait on another process: bounded, and a timeout aborts the case
+                if stdout.buffer().is_empty() {
+                    use std::os::unix::io::AsRawFd;
+                    let mut pfd = libc::pollfd { fd: stdout.get_ref().as_raw_fd(), events: libc::POLLIN, revents: 0 };
+                    let rc = loop {
+                        let rc = unsafe { libc::poll(&mut pfd, 1, REPLY_TIMEOUT.as_millis() as i32) };
+                        if rc >= 0 || std::io::Error::last_os_error().kind() != std::io::ErrorKind::Interrupted {
+                            break rc;
+                        }
+                    };
+                    if rc <= 0 {
+                        return "dead".into();
+                    }
                 }
                 let mut s = String::new();
                 match stdout.read_line(&mut s) {
@@ -474,15 +510,28 @@ impl Link {
             }
         }
     }
+    /// after an aborted case: no further hand-shake with the worker
+    fn abandon(self) {
+        if let Link::Proc { mut child, .. } = self {
+            let _ = child.kill();
+            let _ = child.wait();
+        }
+    }
     fn shutdown(mut self) {
-        let _ = self.call("quit");
+        let r = self.call("quit");
         match &mut self {
             Link::Thread { th, .. } => {
-                if let Some(t) = th.take() {
+                // a worker thread that did not answer is abandoned, never waited for
+                if let Some(t) = th.take()
+                    && r == "bye"
+                {
                     let _ = t.join();
                 }
             }
             Link::Proc { child, .. } => {
+                if r != "bye" {
+                    let _ = child.kill();
+                }
                 let _ = child.wait();
             }
         }
@@ -521,10 +570,13 @@ struct Out {
     o: Vec<String>,
     v: Vec<String>,
     m: Vec<String>,
+    /// Some(reason): a hand-shake or a worker reply timed out, or a worker could not be started.
+    /// The case is then not reported at all (no I, no O): it proves nothing either way.
+    inconclusive: Option<String>,
 }
 
 fn exec_case(input: &str) -> Out {
-    let mut out = Out { o: vec![], v: vec![], m: vec![] };
+    let mut out = Out { o: vec![], v: vec![], m: vec![], inconclusive: None };
     let toks: Vec<&str> = input.split_whitespace().collect();
     let tmp = tempfile::Builder::new().prefix("c18-").tempdir().expect("tempdir");
     let dir = tmp.path().join("db");
@@ -554,9 +606,12 @@ fn exec_case(input: &str) -> Out {
         let p: Vec<&str> = t.split(':').collect();
         let call = |links: &mut Vec<Option<Link>>, w: usize, cmd: String| -> String {
             if links[w].is_none() {
-                links[w] = Some(if kinds[w] == 'p' { Link::process(&dir) } else { Link::thread(&dir) });
+                links[w] = if kinds[w] == 'p' { Link::process(&dir) } else { Some(Link::thread(&dir)) };
             }
-            links[w].as_mut().unwrap().call(&cmd)
+            match links[w].as_mut() {
+                Some(l) => l.call(&cmd),
+                None => "dead".into(),
+            }
         };
         let line = match p[0] {
             "o" => {
@@ -568,6 +623,10 @@ fn exec_case(input: &str) -> Out {
                 let dlen0 = flen(&dpath);
                 let before = if holder || foreign.is_some() { Some((fast_hash(&dpath), fast_hash(&rpath))) } else { None };
                 let r = call(&mut links, w, format!("open {k} {min_len}"));
+                if r == "dead" || r == "inconclusive" {
+                    out.inconclusive = Some(format!("{r} at {t}"));
+                    break;
+                }
                 let (dl, rl) = (flen(&dpath), flen(&rpath));
                 let rt: Vec<&str> = r.split_whitespace().collect();
                 let size_class = if min_len > dlen0 { "above" } else { "below" };
@@ -664,6 +723,10 @@ fn exec_case(input: &str) -> Out {
                     _ => "bad".into(),
                 };
                 let r = call(&mut links, w, cmd);
+                if r == "dead" || r == "inconclusive" {
+                    out.inconclusive = Some(format!("{r} at {t}"));
+                    break;
+                }
                 match r.as_str() {
                     "released" => {
                         alive.remove(&k);
@@ -683,7 +746,7 @@ fn exec_case(input: &str) -> Out {
     }
     drop(foreign);
     for l in links.into_iter().flatten() {
-        l.shutdown();
+        if out.inconclusive.is_some() { l.abandon() } else { l.shutdown() }
     }
     out
 }
@@ -717,7 +780,7 @@ fn gen_case(rng: &mut Rng) -> String {
     let mut insts: Vec<Option<GI>> = vec![]; // by attempt id; None = refused or gone
     let mut region = false;
     let mut foreign = false;
-    let min_lens = [0u64, 0, 1, 100, 4095, 4096, 4097, 65536, 1 << 20, (1 << 20) + 1, (1 << 20) + 4096, 1_500_000, 2 << 20, (2 << 20) + 17, 3 << 20];
+    let min_lens = [0u64, 0, 1, 100, 4095, 4096, 4097, 65536, 1 << 20, (1 << 20) + 1, (1 << 20) + 4096, 1_200_000, 1_500_000, (1 << 20) + (1 << 19), (1 << 21) + 17];
     let n = rng.range(6, 40);
     let mut content = rng.below(1 << 40);
     let live = |insts: &Vec<Option<GI>>| insts.iter().position(|i| i.is_some());
@@ -859,7 +922,7 @@ fn gen_case(rng: &mut Rng) -> String {
 
 /// `race <iters>`: the drop-race probe, run in a child process
 fn exec_race(iters: &str) -> Out {
-    let mut out = Out { o: vec!["race done".into()], v: vec![], m: vec![] };
+    let mut out = Out { o: vec!["race done".into()], v: vec![], m: vec![], inconclusive: None };
     let tmp = tempfile::Builder::new().prefix("c18r-").tempdir().expect("tempdir");
     let dir = tmp.path().join("db");
     let exe = std::env::current_exe().expect("current_exe");
@@ -875,17 +938,23 @@ fn exec_race(iters: &str) -> Out {
         }
         out.m.push(if hits > 0 { "race-probe:hit".into() } else { "race-probe:no-hit".into() });
     } else {
-        out.v.push(format!("race-probe-child-died output {text:?}"));
+        out.inconclusive = Some(format!("race probe child gave {text:?}"));
     }
     out
 }
 
 fn emit(id: &str, input: &str) {
-    println!("I {id} {input}");
     let out = match input.strip_prefix("race ") {
         Some(n) => exec_race(n.trim()),
         None => exec_case(input),
     };
+    if let Some(why) = &out.inconclusive {
+        // neither I nor O: the driver never sees the case, nothing can be compared
+        println!("M {id} inconclusive");
+        eprintln!("openlock: case {id} inconclusive ({why}): {input}");
+        return;
+    }
+    println!("I {id} {input}");
     for o in &out.o {
         println!("O {id} {o}");
     }
@@ -901,6 +970,7 @@ fn emit(id: &str, input: &str) {
 }
 
 pub fn run(args: &[String]) -> i32 {
+    install_tap();
     if let Some(p) = args.iter().position(|a| a == "--child") {
         return child_main(&args[p + 1]);
     }
@@ -918,7 +988,7 @@ pub fn run(args: &[String]) -> i32 {
     let mut rng = Rng::new(a.seed);
     for id in 0..a.cases {
         // the first case of every shard is the drop-race probe
-        let input = if id == 0 { "race 150".to_string() } else { gen_case(&mut rng) };
+        let input = if id == 0 { "race 60".to_string() } else { gen_case(&mut rng) };
         emit(&id.to_string(), &input);
     }
     0
